@@ -633,8 +633,12 @@ Section Walk.
   Definition wres (r : vres) (n : node) (key : list N) : Prop :=
     r = VOk (lk n key) \/ ((exists j, r = VErr (VMissing j)) /\ missing_on n key).
 
+  (* fuel accounting (tight): from a resolved node with [length key] key elements
+     left, at most [length key - 1] further database lookups happen — every
+     lookup is preceded by the consumption of at least one nibble, and after the
+     terminator only a value is left *)
   Definition walks (n : node) : Prop :=
-    forall key f i, valid_key key -> (length key < f)%nat ->
+    forall key f i, valid_key key -> (length key <= S f)%nat ->
       wres (cont f i (pget (collapse H n) key)) n key.
 
   Lemma missing_short k c key r : strip k key = Some r -> key <> [] ->
@@ -654,10 +658,12 @@ Section Walk.
   (* one child: embedded (walk on inside the same proof node) or hashed (next
      database lookup) *)
   Lemma child_walk c : pwf c -> walks c -> (forall e, genuine c e -> P e) ->
-    forall r f i, valid_key r -> (S (length r) < f)%nat ->
+    forall r f i, valid_key r -> (length r <= f)%nat ->
       wres (cont f i (pget (cref H c (collapse H c)) r)) c r.
   Proof.
     intros Hw Hwalk HP r f i Hr Hf.
+    assert (Lr : (1 <= length r)%nat).
+    { pose proof (valid_key_nonempty r Hr). destruct r; [congruence|cbn [length]; lia]. }
     destruct (pwf_enc_total H H_len c Hw) as [e Ee].
     assert (Hcr : cref H c (collapse H c) =
                   if Nat.ltb (length e) 32 then collapse H c else NHash (H e)).
@@ -733,6 +739,26 @@ Section Walk.
           rewrite Forall_forall in IH. apply IH; [eapply nth_error_In; exact Ec|exact Hc|exact HPc].
   Qed.
 
+  (* the loop of VerifyProof from the root hash of [t], with ANY fuel >= the
+     length of the hex key (2n+1 for an n-byte key): one iteration per
+     hash-referenced node on the path, at most one per key element *)
+  Theorem verify_f_follows t e k f i : pwf t -> node_enc H t = Some e ->
+    (forall x, genuine t x -> P x) -> valid_key k -> (length k <= f)%nat ->
+    verify_f f db (H e) k i = VOk (lk t k) \/
+    ((exists j, verify_f f db (H e) k i = VErr (VMissing j)) /\
+     (db_get db (H e) = None \/ missing_on t k)).
+  Proof.
+    intros Hw Ee HP Hk Hf.
+    assert (Lk : (1 <= length k)%nat).
+    { pose proof (valid_key_nonempty k Hk). destruct k; [congruence|cbn [length]; lia]. }
+    destruct f as [|f']; [lia|]. rewrite verify_f_S. destruct (db_get db (H e)) as [b|] eqn:G.
+    - rewrite (faithful e b (HP e (genuine_self t e Ee)) G), (decode_enc H H_len t e Hw Ee).
+      destruct (walk t Hw HP k f' i Hk Hf) as [R|[R M]].
+      + left. exact R.
+      + right. split; [exact R|right; exact M].
+    - right. split; [eauto|left; reflexivity].
+  Qed.
+
   (* VerifyProof from the root hash of [t] *)
   Theorem verify_follows t e key : pwf t -> node_enc H t = Some e ->
     (forall x, genuine t x -> P x) -> forallb byteb key = true ->
@@ -742,14 +768,9 @@ Section Walk.
      (db_get db (H e) = None \/ missing_on t k)).
   Proof.
     intros Hw Ee HP Hkey k. pose proof (keybytes_to_hex_valid key Hkey) as Hk. fold k in Hk.
-    unfold verify_proof. fold k. unfold verify_fuel.
-    replace ((length k + 1) * (length db + 1) + 1)%nat with (S ((length k + 1) * (length db + 1))) by lia.
-    rewrite verify_f_S. destruct (db_get db (H e)) as [b|] eqn:G.
-    - rewrite (faithful e b (HP e (genuine_self t e Ee)) G), (decode_enc H H_len t e Hw Ee).
-      destruct (walk t Hw HP k ((length k + 1) * (length db + 1))%nat 0%nat Hk ltac:(nia)) as [R|[R M]].
-      + left. exact R.
-      + right. split; [exact R|right; exact M].
-    - right. split; [eauto|left; reflexivity].
+    unfold verify_proof. fold k.
+    apply (verify_f_follows t e k (verify_fuel k db) 0%nat Hw Ee HP Hk).
+    unfold verify_fuel. nia.
   Qed.
 End Walk.
 
@@ -910,11 +931,18 @@ Section Main.
 
   (* completeness: the proof Prove emits for any key, present or absent, of a
      non-empty resolved trie verifies to exactly the trie's value *)
-  Theorem completeness resolve t r key :
+  Lemma hex_len key : length (keybytes_to_hex key) = (2 * length key + 1)%nat.
+  Proof. unfold keybytes_to_hex. rewrite app_length, nibbles_of_length. reflexivity. Qed.
+
+  (* ... with ANY loop bound >= 2n+1 for an n-byte key (the Go loop has none):
+     the walk of a genuine proof makes at most one iteration per key nibble plus
+     one for the terminator, so the model's fuel is never what decides *)
+  Theorem completeness_fuel resolve t r key :
     pwf t -> forallb byteb key = true -> (forall e, genuine H t e -> NS e) ->
     hash_root H t = Some r ->
     exists db, prove H resolve t key = TOk db /\
-               verify_proof r key db = VOk (lk t (keybytes_to_hex key)).
+      forall f i, (2 * length key + 1 <= f)%nat ->
+        verify_f f db r (keybytes_to_hex key) i = VOk (lk t (keybytes_to_hex key)).
   Proof.
     intros Hw Hkey HNS Hr. set (k := keybytes_to_hex key).
     pose proof (keybytes_to_hex_valid key Hkey) as Hk. fold k in Hk.
@@ -930,7 +958,8 @@ Section Main.
     assert (I : db_in db).
     { intros k' b Hin. destruct (Sub k' b Hin) as (c & Hc & Ec). apply HNS. exists c.
       split; [eapply path_nodes_sub; exact Hc|exact Ec]. }
-    destruct (verify_follows H H_len db NS (keyed_faithful db K I) t e key Hw Ee HNS Hkey) as [R|[_ [M|M]]].
+    intros f i Hf. rewrite <- hex_len in Hf. fold k in Hf.
+    destruct (verify_f_follows H H_len db NS (keyed_faithful db K I) t e k f i Hw Ee HNS Hk Hf) as [R|[_ [M|M]]].
     - exact R.
     - exfalso. assert (Hin : In (H e, e) db).
       { destruct (path_nodes_hd t k Hw (valid_key_nonempty k Hk)) as [rest Ep].
@@ -938,6 +967,34 @@ Section Main.
       destruct (db_get_of_in db _ _ Hin) as [b' G]. congruence.
     - exfalso. destruct M as (c & e' & Hc & Ec & Le & G). fold k in Hc.
       destruct (db_get_of_in db _ _ (Big c e' Hc Ec Le)) as [b' G']. congruence.
+  Qed.
+
+  Theorem completeness resolve t r key :
+    pwf t -> forallb byteb key = true -> (forall e, genuine H t e -> NS e) ->
+    hash_root H t = Some r ->
+    exists db, prove H resolve t key = TOk db /\
+               verify_proof r key db = VOk (lk t (keybytes_to_hex key)).
+  Proof.
+    intros Hw Hkey HNS Hr.
+    destruct (completeness_fuel resolve t r key Hw Hkey HNS Hr) as (db & Ed & Hv).
+    exists db. split; [exact Ed|]. unfold verify_proof. apply Hv.
+    unfold verify_fuel. rewrite hex_len. nia.
+  Qed.
+
+  (* soundness side: on a hash-keyed database of encodings in NS the loop needs
+     at most 2n+1 iterations as well: with any such bound the result is the true
+     value or a missing node, never [VLoop] *)
+  Theorem sound_fuel t r key db f i :
+    pwf t -> forallb byteb key = true -> (forall e, genuine H t e -> NS e) ->
+    db_keyed db -> db_in db -> hash_root H t = Some r ->
+    (2 * length key + 1 <= f)%nat ->
+    verify_f f db r (keybytes_to_hex key) i = VOk (lk t (keybytes_to_hex key)) \/
+    exists j, verify_f f db r (keybytes_to_hex key) i = VErr (VMissing j).
+  Proof.
+    intros Hw Hkey HNS K I Hr Hf. destruct (pwf_enc_total H H_len t Hw) as [e Ee].
+    rewrite (pwf_hash_root H t e Hw Ee) in Hr. inversion Hr; subst r. rewrite <- hex_len in Hf.
+    destruct (verify_f_follows H H_len db NS (keyed_faithful db K I) t e _ f i Hw Ee HNS
+                (keybytes_to_hex_valid key Hkey) Hf) as [R|[R _]]; [left|right]; exact R.
   Qed.
 
   (* the empty trie: Prove emits nothing and the empty proof is REJECTED, although
